@@ -16,6 +16,12 @@ from .mir import generic_path
 D18 = 10 ** 18
 
 
+def _gcd(a, b):
+    while b:
+        a, b = b, a % b
+    return a
+
+
 # ---------------------------------------------------------------------------------------
 # polynomials over Q with named atoms
 
@@ -267,6 +273,23 @@ class Floors:
                 return o
         return "?"
 
+    def eps_max(self, eps_name):
+        """Upper end of the noise interval of floor atom F_k: the fractional part of (integral polynomial)/q is at most 1 - 1/q."""
+        try:
+            arg = self.arg_of("F" + eps_name[1:])
+        except KeyError:
+            return Fraction(1)
+        if arg.is_poly():
+            den = 1
+            for m, c in arg.n.t.items():
+                for a, e in m:
+                    if not (a in self.integral_vars or a.startswith("F")):
+                        return Fraction(1)
+                den = den * c.denominator // _gcd(den, c.denominator)
+            if den >= 1:
+                return Fraction(den - 1, den)
+        return Fraction(1)
+
     def expand(self, rf):
         """Replace every floor atom F_k by (arg_k - e_k), recursively. Returns (RF, {eps name: origin})."""
         rf = _rf(rf)
@@ -310,7 +333,9 @@ def nonneg(floors, term, box=(), subst=None, strict_den=True):
     if len(boxsyms) > 16:
         return Verdict(False, "too many rounding symbols (%d)" % len(boxsyms), eps=eps)
     evals = 0
-    for bits in itertools.product((0, 1), repeat=len(boxsyms)):
+    hi = {b: (floors.eps_max(b) if b in eps else Fraction(1)) for b in boxsyms}
+    for bits0 in itertools.product((0, 1), repeat=len(boxsyms)):
+        bits = tuple((hi[b] if x else 0) for b, x in zip(boxsyms, bits0))
         evals += 1
         n, d = rf.n, rf.d
         for b, val in zip(boxsyms, bits):
@@ -405,6 +430,17 @@ class Translator:
 
     def _tr(self, v, env):
         k = v[0]
+        if v in env:
+            return env[v]
+        if k == "proj" and v[1][0] == "param" and v[1][2] == 0 and v[2][0] == "f" and isinstance(v[2][1], int):
+            cf = self.P.fn(v[1][1])
+            if cf is not None and cf.kind == "closure":
+                site = self.P.closure_site(cf.path)
+                if site is not None:
+                    pf, b, i, rv = site
+                    if v[2][1] < len(rv["ops"]):
+                        pv = self.P.val_operand(pf, (b, i), rv["ops"][v[2][1]], pf.body)
+                        return self.tr(pv, env)
         if k == "param":
             if v in env:
                 x = env[v]
@@ -570,7 +606,8 @@ class Translator:
             self.aborts.append(("nonzero", d, org))
             self.aborts.append(("fits128", n * RF(D18) / d, org))
             return F.floor(n * RF(D18) / d, org)
-        if re.match(r"^<cosmwasm_std::(\S*::)?Uint128 as (core|std)::ops::Mul<cosmwasm_std::(\S*::)?Decimal>>::mul$", callee):
+        if re.match(r"^<cosmwasm_std::(\S*::)?Uint128 as (core|std)::ops::Mul<cosmwasm_std::(\S*::)?Decimal>>::mul$", callee) or \
+                re.match(r"^cosmwasm_std::\S*<impl (core|std)::ops::Mul<cosmwasm_std::(\S*::)?Decimal> for cosmwasm_std::(\S*::)?Uint128>::mul$", callee):
             if probe:
                 return True
             u, d = T(0), T(1)
